@@ -41,13 +41,114 @@ pub fn check_doc(spec: &DocSpec) -> Result<(), (String, String)> {
     Ok(())
 }
 
+/// The six PDF white-space bytes (ISO 32000-1 table 1): the bytes a reader may skip around the `stream`/`endstream` keywords.
+const WS: [u8; 6] = [0x00, 0x09, 0x0A, 0x0C, 0x0D, 0x20];
+
+/// all byte strings of length 0..=max over `alpha`, shortest first
+fn seqs(alpha: &[u8], max: usize) -> Vec<Vec<u8>> {
+    let mut out: Vec<Vec<u8>> = vec![vec![]];
+    let mut from = 0;
+    for _ in 0..max {
+        let to = out.len();
+        for i in from..to { for &b in alpha { let mut v = out[i].clone(); v.push(b); out.push(v); } }
+        from = to;
+    }
+    out
+}
+
+/// The stream-body dimension of the quantifier ("arbitrary bytes ... in stream bodies"), enumerated:
+///  A) every body of at most two bytes over all 256 byte values (1 + 256 + 65 536);
+///  B) prefix ++ core ++ suffix, where prefix and suffix range over ALL strings up to a length bound over the lexical byte
+///     classes that matter next to the `stream` / `endstream` keywords (the six white-space bytes, a regular byte, 0xFF)
+///     and core over an empty body, a content stream, a body that contains the closing keywords, and binary data;
+///  C) runs w^n of one white-space byte (n beyond the bound of B) before and after each core.
+pub fn stream_bodies(thorough: bool) -> (Vec<Vec<u8>>, usize) {
+    let mut out: Vec<Vec<u8>> = seqs(&(0u16..256).map(|b| b as u8).collect::<Vec<u8>>(), 2);
+    let n_a = out.len();
+    let mut alpha = WS.to_vec();
+    alpha.extend([b'x', 0xFF]);
+    let cores: [&[u8]; 4] = [b"", b"q 1 0 0 1 0 0 cm Q", b"x\nendstream\nendobj\n", b"\x78\x9c\x00\x01\xfe\xff"];
+    let (pl, sl, run) = if thorough { (3, 2, 64) } else { (2, 1, 16) };
+    let (pre, suf) = (seqs(&alpha, pl), seqs(&alpha, sl));
+    for core in cores {
+        for p in &pre { for s in &suf { out.push([p.as_slice(), core, s.as_slice()].concat()); } }
+        for w in WS { for n in (pl + 1)..=run { out.push([vec![w; n].as_slice(), core].concat()); out.push([core, vec![w; n].as_slice()].concat()); } }
+    }
+    (out, n_a)
+}
+
+fn esc(b: &[u8]) -> String {
+    let mut t: String = b.iter().take(40).map(|&c| if (0x21..0x7f).contains(&c) && c != b'\\' { (c as char).to_string() } else { format!("\\x{:02x}", c) }).collect();
+    if b.len() > 40 { t.push_str(".."); }
+    format!("\"{}\" ({} bytes)", t, b.len())
+}
+
+/// the document a stream body is placed in: alone, or between two other objects (sparse ids, non-zero generation), with an
+/// empty or a non-empty stream dictionary
+fn stream_spec(body: &[u8], layout: usize, xs: bool) -> (DocSpec, (u32, u16)) {
+    if layout == 0 {
+        (DocSpec { objects: vec![((1, 0), Object::Stream(lopdf::Stream::new(lopdf::Dictionary::new(), body.to_vec())))], xref_stream: xs, version: "1.5".into(), extra_trailer: false, max_id_slack: 0 }, (1, 0))
+    } else {
+        let st = Object::Stream(lopdf::Stream::new(dict(vec![(b"Extra", name(b"Yes"))]), body.to_vec()));
+        (DocSpec { objects: vec![((1, 0), Object::Integer(7)), ((3, 2), st), ((6, 0), Object::Dictionary(dict(vec![(b"Next", Object::Reference((3, 2)))])))], xref_stream: xs, version: "1.7".into(), extra_trailer: true, max_id_slack: 1 }, (3, 2))
+    }
+}
+
+/// what one save+load did to the stream `sid` of `spec`: (kind of damage, particulars). Only used to word a failure; the
+/// verdict is check_doc's.
+fn stream_diag(spec: &DocSpec, sid: (u32, u16), body: &[u8]) -> (String, String) {
+    let mut d = build(spec);
+    let mut out = vec![];
+    if !matches!(guarded(std::panic::AssertUnwindSafe(|| d.save_to(&mut out))), Ok(Ok(()))) { return ("save of a document with a stream failed".into(), String::new()); }
+    match guarded(|| Document::load_mem(&out)) {
+        Ok(Ok(l)) => match l.objects.get(&sid) {
+            Some(Object::Stream(s)) if s.content == body => ("stream body survives the first cycle only".into(), "the first save+load returns the body unchanged".into()),
+            Some(Object::Stream(s)) => ("stream body changed by save+load".into(), format!("read back {}", esc(&s.content))),
+            Some(o) => (format!("stream came back as a {}", o.enum_variant()), format!("read back {:?}", o)),
+            None => ("stream is missing after save+load".into(), String::new()),
+        },
+        Ok(Err(e)) => ("load of a saved document with a stream failed".into(), e.to_string()),
+        Err(p) => ("load of a saved document with a stream panicked".into(), p),
+    }
+}
+
 pub fn roundtrip(thorough: bool) -> Report {
-    let mut rep = Report::new("all documents of gen::docs (both xref formats), two save/load cycles each", true);
+    let mut rep = Report::new(if thorough {
+        "all documents of gen::docs (both xref formats); plus the stream-body family: every stream body of 0..=2 bytes over all 256 byte values, alone in a document; every body prefix++core++suffix with prefix in all strings of length<=3 and suffix in all strings of length<=2 over {NUL,TAB,LF,FF,CR,SP,'x',0xFF} and core in {empty, content stream, text containing endstream/endobj, binary}, and runs of 4..=64 equal white-space bytes before/after each core, each alone and between two other objects (sparse ids, generation 2, non-empty stream dictionary); all x both xref formats; two save/load cycles each"
+    } else {
+        "all documents of gen::docs (both xref formats); plus the stream-body family: every stream body of 0..=2 bytes over all 256 byte values, alone in a document; every body prefix++core++suffix with prefix in all strings of length<=2 and suffix in all strings of length<=1 over {NUL,TAB,LF,FF,CR,SP,'x',0xFF} and core in {empty, content stream, text containing endstream/endobj, binary}, and runs of 3..=16 equal white-space bytes before/after each core, each alone and between two other objects (sparse ids, generation 2, non-empty stream dictionary); all x both xref formats; two save/load cycles each"
+    }, true);
     for s in docs(thorough) {
         rep.case(!s.objects.is_empty());
         if let Err((ob, d)) = check_doc(&s) { rep.fail(&ob, d.clone(), json!({"kind": "doc", "spec": spec_json(&s)}), d); }
         else if rep.evaluations % 101 == 1 { rep.sample(describe(&s)); }
     }
+    // the stream-body dimension
+    let (bodies, n_a) = stream_bodies(thorough);
+    let results: Vec<(u64, u64, Vec<(String, String, Value, String)>)> = bodies.par_iter().enumerate().map(|(i, body)| {
+        let mut fails = vec![];
+        let mut n = 0;
+        for layout in 0..(if i < n_a { 1 } else { 2 }) {
+            for xs in [false, true] {
+                n += 1;
+                let (spec, sid) = stream_spec(body, layout, xs);
+                if let Err((ob, d)) = check_doc(&spec) {
+                    let (kind, rest) = stream_diag(&spec, sid, body);
+                    let detail = format!("{} ({}, xref {}): stream {} {} wrote body {}, {}", kind, if layout == 0 { "alone" } else { "between two objects" }, if xs { "stream" } else { "table" }, sid.0, sid.1, esc(body), rest);
+                    fails.push((format!("stream-body-{}", ob), detail, json!({"kind": "doc", "spec": spec_json(&spec)}), d));
+                }
+            }
+        }
+        (n, if body.is_empty() { 0 } else { n }, fails)
+    }).collect();
+    let mut total_fails = 0usize;
+    for (n, nt, fails) in results {
+        rep.evaluations += n;
+        rep.nontrivial += nt;
+        for (ob, detail, input, observed) in fails { total_fails += 1; rep.fail(&ob, detail, input, observed); }
+    }
+    if total_fails > 0 { for f in rep.failures.iter_mut().filter(|f| f.obligation.starts_with("stream-body-")) { f.detail = format!("[{} stream-body documents fail in total in this run] {}", total_fails, f.detail); } }
+    rep.sample(format!("stream bodies: {} enumerated, e.g. {}", bodies.len(), esc(&bodies[bodies.len() / 2])));
     rep
 }
 
